@@ -231,6 +231,28 @@ pub fn run(rep: &Report) -> serde_json::Value {
             rep.violation("a term that is not an integer-tagged tuple was accepted", json!({"term": d.short(), "parsed": format!("{:?}", r).chars().take(120).collect::<String>()}));
         }
     }
+    // atoms inside control messages keep their names: EXIT / EXIT2 / MONITOR_P_EXIT with every well-known atom as the reason
+    // (built from the name as a string, read back from the wire by the independent reader and by the parser)
+    {
+        let pid = OwnedTerm::Pid(erltf::types::ExternalPid::new(erltf::types::Atom::new("n@h"), 1, 2, 3));
+        let rf = OwnedTerm::Reference(erltf::types::ExternalReference::new(erltf::types::Atom::new("n@h"), 1, vec![1, 2, 3]));
+        for name in crate::universe::atom_names(false) {
+            if name.chars().count() > 255 { continue; }
+            for (tag, with_ref) in [(3i64, false), (8, false), (21, true)] {
+                rep.add("evaluations", 1);
+                let mut e = vec![int(tag), pid.clone(), pid.clone()];
+                if with_ref { e.push(rf.clone()); }
+                e.push(OwnedTerm::Atom(erltf::types::Atom::new(name.as_str())));
+                let Ok(m) = ControlMessage::from_term(&OwnedTerm::Tuple(e)) else { rep.violation("integer-tagged tuple rejected", json!({"tag": tag, "reason": name})); continue; };
+                let reason_of = |v: &RefVal| -> Option<String> { if let RefVal::Tuple(es) = v { if let Some(RefVal::Atom(a)) = es.last() { return Some(a.clone()); } } None };
+                let on_wire = erltf::encode(&m.to_term()).ok().and_then(|b| vcore::refcodec::ref_decode(&b).ok()).and_then(|v| reason_of(&v));
+                let parsed_back = erltf::encode(&m.to_term()).ok().and_then(|b| erltf::decode(&b).ok()).and_then(|t| ControlMessage::from_term(&t).ok()).and_then(|m2| reason_of(&denote(&m2.into_term())));
+                if on_wire.as_deref() != Some(name.as_str()) || parsed_back.as_deref() != Some(name.as_str()) {
+                    rep.violation("an atom inside a control message changes its name on the way through the wire encoding", json!({"tag": tag, "reason": name.chars().take(40).collect::<String>(), "on_the_wire": on_wire, "parsed_back": parsed_back}));
+                }
+            }
+        }
+    }
     // a tag that arrives as a big integer (SMALL_BIG_EXT on the wire) is the same tag
     for tag in 0..256i64 {
         for rest in [vec![], vec![int(1), int(2)], vec![atom(""), int(1)], vec![int(1), int(2), int(3), int(4)]] {
